@@ -111,6 +111,11 @@ theorem rd_jsge (d : Nat) :
     reads ⟨Consts.op_JSGE, d, 0, 1, 0⟩ = [d] ∧ defs ⟨Consts.op_JSGE, d, 0, 1, 0⟩ = [] := by
   simp [reads, defs, isAlu, isJmpCls, isCall, isExit, cls, code, useReg, Consts.op_JSGE]
 
+/-- the sign test of `abs` at the width of the computation: `JSGE` (JMP class) or `JSGE + SHORT` (JMP32 class) -/
+theorem rd_jsge_w (lg : Bool) (d : Nat) :
+    reads ⟨absTest lg, d, 0, 1, 0⟩ = [d] ∧ defs ⟨absTest lg, d, 0, 1, 0⟩ = [] := by
+  cases lg <;> simp [absTest, reads, defs, isAlu, isJmpCls, isCall, isExit, cls, code, useReg, Consts.op_JSGE, Consts.op_SHORT]
+
 theorem rd_shift (opc : Nat) (h : opc = Consts.op_LSH ∨ opc = Consts.op_ARSH) (lg : Bool) (d : Nat) (v : Int) :
     reads ⟨opc + longBit lg, d, 0, 0, v⟩ = [d] ∧ defs ⟨opc + longBit lg, d, 0, 0, v⟩ = [d] := by
   rcases h with h | h <;> subst h <;> cases lg <;>
@@ -216,45 +221,44 @@ theorem cov_neg (a : Expr) (ih : CalcCov a) : CalcCov (.neg a) := by
   intro dst long force g g' res W h hl
   simp only [calculate] at h
   rw [bind_ok] at h
-  obtain ⟨ra, g1, hcalc, h⟩ := h
+  obtain ⟨⟨d, rel⟩, g1, hfree, h⟩ := h
+  obtain ⟨hc1, hd⟩ := getFree_dst hfree
+  simp only [] at h
   rw [bind_ok] at h
-  obtain ⟨u, g2, hemit, h⟩ := h
+  obtain ⟨ra, g2, hcalc, h⟩ := h
+  rw [bind_ok] at h
+  obtain ⟨u, g3, hemit, h⟩ := h
   rw [pure_ok] at h
   rw [emit_ok] at hemit
   cases h; cases hemit
-  obtain ⟨c, hc, hcov, hres, hpl⟩ := ih dst long force g g1 res W hcalc hl
-  refine ⟨c ++ [⟨Consts.op_NEG + longBit res.long, res.reg, 0, 0, 0⟩], by simp [hc], covered_snoc hcov ?_,
-    mem_after_snoc (Or.inr hres), hpl⟩
-  rw [(rd_neg res.long res.reg).1]; intro r hr; simp at hr; subst hr; exact hres
+  obtain ⟨c, hc, hcov, hres, hpl⟩ := ih (some d) long true g1 g2 ra W hcalc hl
+  have hreg : ra.reg = d := hpl rfl d rfl
+  refine ⟨c ++ [⟨Consts.op_NEG + longBit (unaryLong long ra.long), ra.reg, 0, 0, 0⟩], by simp [hc, hc1], covered_snoc hcov ?_,
+    mem_after_snoc (Or.inr hres), fun _ d' h' => by rw [hreg]; exact hd d' h'⟩
+  rw [(rd_neg _ ra.reg).1]; intro r hr; simp at hr; subst hr; exact hres
 
 theorem cov_abs (a : Expr) (ih : CalcCov a) : CalcCov (.abs a) := by
   intro dst long force g g' res W h hl
   simp only [calculate] at h
   rw [bind_ok] at h
-  obtain ⟨ra, g1, hcalc, h⟩ := h
+  obtain ⟨⟨d, rel⟩, g1, hfree, h⟩ := h
+  obtain ⟨hc1, hd⟩ := getFree_dst hfree
+  simp only [] at h
   rw [bind_ok] at h
-  obtain ⟨os, g2, hos, h⟩ := h
-  rw [getOwners_ok] at hos
-  cases hos
-  split at h
-  · rw [bind_ok] at h
-    obtain ⟨_, _, hf, _⟩ := h
-    rw [fail_ok] at hf; exact hf.elim
-  · rw [bind_ok] at h
-    obtain ⟨u1, g4, he1, h⟩ := h
-    rw [bind_ok] at h
-    obtain ⟨u2, g5, hadd, h⟩ := h
-    rw [bind_ok] at h
-    obtain ⟨u3, g6, he2, h⟩ := h
-    rw [pure_ok] at h
-    rw [emit_ok] at he1 he2
-    rw [addOwner_ok] at hadd
-    cases h; cases he2; cases hadd; cases he1
-    obtain ⟨c, hc, hcov, hres, hpl⟩ := ih dst long force g g1 res W hcalc hl
-    refine ⟨(c ++ [⟨Consts.op_JSGE, res.reg, 0, 1, 0⟩]) ++ [⟨Consts.op_NEG + Consts.op_LONG, res.reg, 0, 0, 0⟩], by simp [hc],
-      covered_snoc (covered_snoc hcov ?_) ?_, mem_after_snoc (Or.inr (mem_after_snoc (Or.inr hres))), hpl⟩
-    · rw [(rd_jsge res.reg).1]; intro r hr; simp at hr; subst hr; exact hres
-    · rw [(rd_neg_long res.reg).1]; intro r hr; simp at hr; subst hr; exact mem_after_snoc (Or.inr hres)
+  obtain ⟨ra, g2, hcalc, h⟩ := h
+  rw [bind_ok] at h
+  obtain ⟨u, g3, htail, h⟩ := h
+  rw [pure_ok] at h
+  obtain ⟨_, ht⟩ := absTail_ok htail
+  cases h; cases ht
+  obtain ⟨c, hc, hcov, hres, hpl⟩ := ih (some d) long true g1 g2 ra W hcalc hl
+  have hreg : ra.reg = d := hpl rfl d rfl
+  refine ⟨(c ++ [⟨absTest (unaryLong long ra.long), ra.reg, 0, 1, 0⟩]) ++
+      [⟨Consts.op_NEG + longBit (unaryLong long ra.long), ra.reg, 0, 0, 0⟩], by simp [hc, hc1],
+    covered_snoc (covered_snoc hcov ?_) ?_, mem_after_snoc (Or.inr (mem_after_snoc (Or.inr hres))),
+    fun _ d' h' => by rw [hreg]; exact hd d' h'⟩
+  · rw [(rd_jsge_w _ ra.reg).1]; intro r hr; simp at hr; subst hr; exact hres
+  · rw [(rd_neg _ ra.reg).1]; intro r hr; simp at hr; subst hr; exact mem_after_snoc (Or.inr hres)
 
 theorem load_cov {d src : Nat} {off : Int} {fmt : Fmt} {long : Option Bool} {g g' : GenState}
     (h : load d src off fmt long g = .ok ((), g')) :
